@@ -132,8 +132,36 @@ func (s *session) block(kind string, a []int, hexpix string) (string, bool) {
 		return "", false
 	}
 	// half / full: an *image.NRGBA source (straight alpha); halfp / fullp: an *image.RGBA source (premultiplied)
+	// round 4: halfg / fullg: an *image.Gray source (Y = the first byte of each pixel; the scaler's Gray fast path when
+	// it is rescaled); halfq / fullq: an *image.Paletted source whose palette holds the distinct pixels as color.NRGBA
+	// (the scaler's generic path scale_RGBA_Image_{Over,Src})
 	var img image.Image
-	if strings.HasSuffix(kind, "p") {
+	if strings.HasSuffix(kind, "g") {
+		im := image.NewGray(image.Rect(0, 0, W, H))
+		for i := range im.Pix {
+			im.Pix[i] = pix[4*i]
+		}
+		img = im
+	} else if strings.HasSuffix(kind, "q") {
+		var pal color.Palette
+		idx := map[[4]byte]int{}
+		im := image.NewPaletted(image.Rect(0, 0, W, H), nil)
+		for i := range im.Pix {
+			k := [4]byte{pix[4*i], pix[4*i+1], pix[4*i+2], pix[4*i+3]}
+			j, ok := idx[k]
+			if !ok {
+				j = len(pal)
+				if j > 255 {
+					return "", false
+				}
+				idx[k] = j
+				pal = append(pal, color.NRGBA{k[0], k[1], k[2], k[3]})
+			}
+			im.Pix[i] = uint8(j)
+		}
+		im.Palette = pal
+		img = im
+	} else if strings.HasSuffix(kind, "p") {
 		im := image.NewRGBA(image.Rect(0, 0, W, H))
 		copy(im.Pix, pix)
 		img = im
@@ -322,7 +350,7 @@ func (s *session) execOp(f []string) (string, bool) {
 			return "panic", true
 		}
 		return res, true
-	case "half", "full", "halfp", "fullp":
+	case "half", "full", "halfp", "fullp", "halfg", "fullg", "halfq", "fullq":
 		if len(f) != 10 {
 			return "", false
 		}
@@ -852,6 +880,39 @@ func genBlocks(r *hx.Run, rng *gen.Rng, do func(string) string) {
 		} else {
 			r.Count(kind + "-block-rescaled-opaque")
 		}
+	}
+	// round 4: sources of other concrete types — *image.Gray (the scaler's Gray fast path) and *image.Paletted with a
+	// color.NRGBA palette (the scaler's generic path; translucent entries in half of them) — unscaled and rescaled
+	mg := 600
+	if r.Thorough {
+		mg = 6000
+	}
+	for i := 0; i < mg; i++ {
+		W, H := rng.Range(1, 9), rng.Range(1, 12)
+		kind := gen.Pick(rng, []string{"halfg", "fullg", "halfq", "fullq", "halfq", "fullq"})
+		px := make([][4]int, W*H)
+		var pal [][4]int
+		translucent := rng.Chance(1, 2)
+		for k, np := 0, rng.Range(1, 6); k < np; k++ {
+			a := 255
+			if translucent {
+				a = gen.Pick(rng, []int{0, 1, 49, 50, 51, 100, 200, 254, 255, rng.Intn(256)})
+			}
+			pal = append(pal, [4]int{rng.Intn(256), rng.Intn(256), rng.Intn(256), a})
+		}
+		for k := range px {
+			if strings.HasSuffix(kind, "g") {
+				y := rng.Intn(256)
+				px[k] = [4]int{y, y, y, 255}
+			} else {
+				px[k] = gen.Pick(rng, pal)
+			}
+		}
+		bw, bh := rng.Range(W, 9), rng.Range(ceilDiv(H, 2), 6)
+		if rng.Chance(2, 3) { // rescaled
+			bw, bh = rng.Range(1, W), rng.Range(1, ceilDiv(H, 2))
+		}
+		emit(kind, W, H, px, bw, bh, rng.Range(0, 4), rng.Range(0, 2), -1, -1)
 	}
 	// unscaled premultiplied sources at every alpha level
 	for a := 0; a < 256; a++ {
